@@ -1,0 +1,54 @@
+//go:build verif
+
+// Contracts for package secec, checked by /verif (vcgo).  Comment-only; excluded from normal builds.
+
+package secec
+
+//@ func bytesToCanonicalScalar
+//@   props C12 C07
+//@   split len(sBytes) in 0..33 else
+//@   split case len(sBytes) >= 1 && len(sBytes) <= 32 && os2ipv(sBytes) < N
+//@   ensures (len(sBytes) >= 1 && len(sBytes) <= 32 && os2ipv(sBytes) < N) ==> result1 == nil && val(result0) == fn(os2ipv(sBytes))
+//@   ensures !(len(sBytes) >= 1 && len(sBytes) <= 32 && os2ipv(sBytes) < N) ==> result0 == nil && result1 != nil
+//@   fresh result0
+//@
+//@ func ParseCompactSignature
+//@   props C12 C07
+//@   split case len(data) == 64
+//@   split case len(data) == 64 && os2ip(data[0:32]) >= 1 && os2ip(data[0:32]) < N
+//@   split case len(data) == 64 && os2ip(data[32:64]) >= 1 && os2ip(data[32:64]) < N
+//@   ensures (len(data) == 64 && os2ip(data[0:32]) >= 1 && os2ip(data[0:32]) < N && os2ip(data[32:64]) >= 1 && os2ip(data[32:64]) < N) ==> result2 == nil && val(result0) == fn(os2ip(data[0:32])) && val(result1) == fn(os2ip(data[32:64]))
+//@   ensures !(len(data) == 64 && os2ip(data[0:32]) >= 1 && os2ip(data[0:32]) < N && os2ip(data[32:64]) >= 1 && os2ip(data[32:64]) < N) ==> result0 == nil && result1 == nil && result2 != nil
+//@   fresh result0, result1
+//@
+//@ func ParseCompactRecoverableSignature
+//@   props C12 C07
+//@   split case len(data) == 65
+//@   split case len(data) == 65 && os2ip(data[0:32]) >= 1 && os2ip(data[0:32]) < N
+//@   split case len(data) == 65 && os2ip(data[32:64]) >= 1 && os2ip(data[32:64]) < N
+//@   ensures (len(data) == 65 && os2ip(data[0:32]) >= 1 && os2ip(data[0:32]) < N && os2ip(data[32:64]) >= 1 && os2ip(data[32:64]) < N) ==> result3 == nil && val(result0) == fn(os2ip(data[0:32])) && val(result1) == fn(os2ip(data[32:64])) && result2 == data[64]
+//@   ensures !(len(data) == 65 && os2ip(data[0:32]) >= 1 && os2ip(data[0:32]) < N && os2ip(data[32:64]) >= 1 && os2ip(data[32:64]) < N) ==> result0 == nil && result1 == nil && result3 != nil
+//@   fresh result0, result1
+//@
+//@ func buildCompactSignature
+//@   props C12 C08
+//@   ensures len(result) == 64 && cap(result) == ite(allocV, 65, 64) && os2ip(result[0:32]) == lift(val(r)) && os2ip(result[32:64]) == lift(val(s))
+//@   fresh result
+//@
+//@ func BuildCompactSignature
+//@   props C12 C08
+//@   ensures len(result) == 64 && os2ip(result[0:32]) == lift(val(r)) && os2ip(result[32:64]) == lift(val(s))
+//@   fresh result
+//@
+//@ func BuildCompactRecoverableSignature
+//@   props C12 C08
+//@   ensures len(result) == 65 && os2ip(result[0:32]) == lift(val(r)) && os2ip(result[32:64]) == lift(val(s)) && result[64] == v
+//@   fresh result
+//@
+//@ func ParseASN1Signature
+//@   props C12 C07
+//@   split case dersig(data)
+//@   ensures (result2 == nil) <==> dersig(data)
+//@   ensures dersig(data) ==> val(result0) == fn(dersig_r(data)) && val(result1) == fn(dersig_s(data))
+//@   ensures !dersig(data) ==> result0 == nil && result1 == nil
+//@   fresh result0, result1
